@@ -17,6 +17,8 @@ Obligations per target and instance size (every one is a separate `apalache-mc c
   <t>_step    IndInv /\\ Next => IndInv'      --init=IndInv --inv=IndInv --length=1   (every symbolic transition must be
                                                                                        enabled from IndInv: vacuity guard)
   <t>_safety  IndInv => Safety               --init=IndInv --inv=Safety --length=0
+TLAPS (tlapm, every run cold on a private copy): DensityIndProofs (arbitrary N), DTreeIterIndProofs (arbitrary M),
+EmIdxProofs, LloydIdxProofs: Init => IndInv, IndInv /\\ [Next]_vars => IndInv', IndInv => Safety, Spec => []Safety.
 TLC cross-checks (XC_*.tla): refinement of the Ind module by the original design model (PROPERTY Ind!Spec under the
 abstraction mapping), equality of the reachable state sets, agreement of the recursion-free final relation with the
 original one; the refinement property is shown to have teeth (a deliberately mismatched variant must fail it).
@@ -106,6 +108,76 @@ def run_apalache(ctx, ob, timeout):
     return ob
 
 
+
+def run_tlapm(ctx, module, deps, timeout=900, variant="ok"):
+    """Run tlapm on a private copy (fingerprint cache stays in the work directory, always cold).  variant != "ok": the
+    copy's assumption `Variant = "ok"` is replaced, i.e. the same proof script is run against the model with the seeded
+    design bug; it must then fail.  Same conventions as props/x06.py."""
+    d = os.path.join(ctx.work, "tlaps_%s_%s" % (module, variant))
+    shutil.rmtree(d, ignore_errors=True)
+    os.makedirs(d)
+    for m in deps:
+        shutil.copy(os.path.join(vlib.SPECS, m + ".tla"), d)
+    if variant != "ok":
+        pm = os.path.join(d, module + ".tla")
+        with open(pm) as f:
+            txt = f.read()
+        if 'Variant = "ok"' not in txt:
+            raise vlib.ToolError("proof module %s has no assumption Variant = \"ok\"" % module)
+        with open(pm, "w") as f:
+            f.write(txt.replace('Variant = "ok"', 'Variant = "%s"' % variant))
+    t = time.time()
+    res = dict(name="tlaps_%s_%s" % (module, variant), module=module, tool="tlapm", variant=variant, length=0,
+               cmd="tlapm --cleanfp --stretch 3 specs/%s.tla" % module)
+    # back-end time limits (z3 5 s, Zenon 10 s, Isabelle 30 s, times --stretch) can expire on a loaded machine although
+    # the obligation is provable: the unproved ones are retried with longer limits (fingerprints keep the proved ones).
+    attempts = [["tlapm", "--cleanfp", "--stretch", "3", module + ".tla"], ["tlapm", "--stretch", "12", module + ".tla"],
+                ["tlapm", "--stretch", "40", module + ".tla"]]
+    if variant != "ok":
+        attempts = [["tlapm", "--cleanfp", module + ".tla"]]
+    out, ai = "", 0
+    for ai, cmd in enumerate(attempts):
+        try:
+            p = subprocess.run(["timeout", str(timeout + 20)] + cmd, cwd=d, stdout=subprocess.PIPE, stderr=subprocess.STDOUT, text=True, timeout=timeout)
+            out = p.stdout
+        except subprocess.TimeoutExpired:
+            res.update(status="timeout", secs=round(time.time() - t, 1), total=0, proved=0)
+            return res
+        with open(os.path.join(ctx.work, "tlaps_%s_%s.%d.out" % (module, variant, ai + 1)), "w") as f:
+            f.write(out)
+        if re.search(r"All (\d+) obligations? proved", out):
+            break
+        if ai + 1 < len(attempts):
+            vlib.log("tlapm %s: attempt %d left obligations unproved (back-end time limits?), retrying with longer limits" % (module, ai + 1))
+    res["attempts"] = ai + 1
+    res["secs"] = round(time.time() - t, 1)
+    m = re.search(r"All (\d+) obligations? proved", out)
+    if m:
+        res.update(status="discharged", total=int(m.group(1)), proved=int(m.group(1)))
+    else:
+        m = re.search(r"(\d+)/(\d+) obligations failed", out)
+        if m:
+            # "unproved": the provers found no proof.  This is not a counterexample (tlapm cannot refute).
+            res.update(status="unproved", total=int(m.group(2)), proved=int(m.group(2)) - int(m.group(1)),
+                       violated="%s of %s proof obligations not proved" % (m.group(1), m.group(2)))
+        else:
+            res.update(status="error", total=0, proved=0, tail="\n".join(out.splitlines()[-15:]))
+    with open(os.path.join(vlib.SPECS, module + ".tla")) as f:
+        res["theorems"] = re.findall(r"^(?:THEOREM|LEMMA)\s+(\w+)\s*==", f.read(), re.M)
+    shutil.rmtree(os.path.join(d, ".tlacache"), ignore_errors=True)
+    vlib.log("tlapm    %-34s %-14s %6.1fs (%d/%d obligations)" % (module + "/" + variant, res["status"], res["secs"], res["proved"], res["total"]))
+    return res
+
+
+# proof modules: (module, files to copy, target whose variants it knows, scope)
+PROOF_MODULES = [
+    ("DensityIndProofs", ["DensityIndProofs", "DensityInd"], "density", "ARBITRARY N \\in Nat: every relation, core set, queue order"),
+    ("DTreeIterIndProofs", ["DTreeIterIndProofs", "DTreeIterInd"], "dtree", "ARBITRARY M \\in Nat: every finite binary tree"),
+    ("EmIdxProofs", ["EmIdxProofs", "EmIdx"], "emidx", "all integers (nruns, maxit, tol, lower bounds, probe)"),
+    ("LloydIdxProofs", ["LloydIdxProofs", "LloydIdx"], "lloydidx", "all integers (nruns, maxit, inertias, probe)"),
+]
+
+
 def std_obs(prefix, module, variant, consts, tag, scope, only=None, extra=()):
     """The three standard obligations of an Ind module for one instance."""
     c = dict(consts)
@@ -153,7 +225,12 @@ DENSITY_VARIANTS = ["noncore_extends", "seed_needs_free_neighbour", "steal_borde
 DENSITY_SHARED = ["noncore_extends", "seed_needs_free_neighbour"]
 
 
+# N = 6 (2^15 relations x 2^6 core sets in ONE consecution run) was discharged once by hand (1 749 s at load 60); its
+# IndInv => Safety run was not decided within 27 min.  `X08_DENSITY_N6=1 bin/check X08 --tier thorough` adds the N = 6
+# initiation and consecution runs to the thorough tier (the TLAPS module covers every N anyway).
 def density_obs(variant, N, only=None):
+    if N >= 6 and only is None:
+        only = ["init", "step"]
     return std_obs("density", "DensityInd", variant, {"N": str(N)}, "N%d" % N,
                    "every reflexive symmetric relation and every core set on N = %d points, every queue order, any number of steps" % N,
                    only)
@@ -391,9 +468,10 @@ TIER = {
         lloyd_ref=[dict(ScaleKind=1, MGrid=2, MN=3, MK=2, MIt=3, MRuns=2, MTols="{101, 102, 130}")],
         dtree_ref=[dict(MaxN=3, MaxV=2, MaxK=2, MaxD=1, Mws="{8}", Mwl="{4}", Mid="{10}"),
                    dict(MaxN=3, MaxV=1, MaxK=2, MaxD=2, Mws="{8}", Mwl="{4}", Mid="{10}")],
+        sens_tlaps=[("DensityIndProofs", "noncore_extends"), ("DTreeIterIndProofs", "right_first")],
         par=5, apa_timeout=240),
     "thorough": dict(
-        density=[1, 2, 3, 4, 5, 6],
+        density=[1, 2, 3, 4, 5],
         density_ref=[dict(Lattices="{103}", N=4, MinPtsSet="{2, 3}", EpsSet="{11, 21, 32}", emit=True),
                      dict(Lattices="{201}", N=4, MinPtsSet="{2, 3}", EpsSet="{11, 32}", emit=True),
                      dict(Lattices="{202}", N=4, MinPtsSet="{2, 3, 4}", EpsSet="{11, 32, 21, 52}", emit=True),
@@ -403,7 +481,7 @@ TIER = {
         density_ind_tlc=[1, 2, 3, 4, 5],
         density_teeth=dict(Lattices="{103}", N=5, MinPtsSet="{3, 4}", EpsSet="{11, 32}"),
         density_shared=DENSITY_SHARED,
-        dtree=[1, 3, 7, 15, 31],
+        dtree=[1, 3, 7, 15],
         emidx=[0], lloydidx=[0], idx_tlc=[3, 4],
         em=[1, 2, 3, 5, 8, 12], em_ref=[dict(MaxIt=3, MaxRuns=3), dict(MaxIt=4, MaxRuns=3)],
         lloyd=[1, 2, 3, 5, 8, 12], lloyd_ind_tlc=[3, 4],
@@ -413,6 +491,7 @@ TIER = {
                    dict(MaxN=3, MaxV=1, MaxK=2, MaxD=2, Mws="{8}", Mwl="{4}", Mid="{10}"),
                    dict(MaxN=4, MaxV=2, MaxK=2, MaxD=1, Mws="{8, 10}", Mwl="{4}", Mid="{10, 250000}"),
                    dict(MaxN=4, MaxV=1, MaxK=2, MaxD=2, Mws="{8}", Mwl="{4}", Mid="{10}")],
+        sens_tlaps="all",
         par=6, apa_timeout=3000),
 }
 
@@ -424,14 +503,16 @@ def targets_of_variant(v):
 # ---------------------------------------------------------------------------------------------- run
 def violation(ctx, ob):
     case = {"id": ob["name"], "kind": "obligation",
-            "inp": {k: ob.get(k) for k in ("module", "tool", "target", "consts", "init", "inv", "length", "scope", "cmd")},
+            "inp": {k: ob.get(k) for k in ("module", "tool", "target", "variant", "consts", "init", "inv", "length", "scope", "cmd")},
             "ev": [{"ev": ob["status"], "what": ob.get("violated", ""), "counterexample": ob.get("cex", ""),
                     "detail": ob.get("tail", "")}]}
     vlib.record_violation(ctx, case, ["obligation %s not discharged: %s %s" % (ob["name"], ob["status"], ob.get("violated", ""))])
 
 
 def run(ctx):
-    t = TIER[ctx.tier]
+    t = dict(TIER[ctx.tier])
+    if ctx.tier == "thorough" and os.environ.get("X08_DENSITY_N6"):
+        t["density"] = t["density"] + [6]
     variant = variant_of(ctx)
     vt = []
     if variant != "ok":
@@ -457,6 +538,15 @@ def run(ctx):
     order = sorted(main + sens, key=lambda o: (-o["length"], -int(re.sub(r"\D", "", o["name"].split("_")[2]) or 0), o["name"]))
     xc, xc_err, reach = {}, None, {}
     with ThreadPoolExecutor(max_workers=t["par"] - 1) as ex:
+        tfuts, tsfuts = [], []
+        if variant == "ok":
+            tfuts = [ex.submit(run_tlapm, ctx, mod, deps) for mod, deps, _tg, _sc in PROOF_MODULES]
+            pairs = t["sens_tlaps"]
+            if pairs == "all":
+                pairs = [(mod, v) for mod, _d, tg, _sc in PROOF_MODULES for v in TARGETS[tg]["variants"]]
+            tsfuts = [ex.submit(run_tlapm, ctx, mod, dict((m, d) for m, d, _t, _s in PROOF_MODULES)[mod], 900, v) for mod, v in pairs]
+        else:
+            tfuts = [ex.submit(run_tlapm, ctx, mod, deps, 900, variant) for mod, deps, tg, _sc in PROOF_MODULES if tg in vt]
         futs = [ex.submit(run_apalache, ctx, o, t["apa_timeout"]) for o in order]
         # the TLC cross-checks run in this thread meanwhile
         if variant == "ok":
@@ -471,14 +561,16 @@ def run(ctx):
                 xc_err = str(e)
         for f in futs:
             f.result()
+        tl = [f.result() for f in tfuts]
+        tl_sens = [f.result() for f in tsfuts]
 
     # ---- verdict
-    bad_tool = [o for o in main if o["status"] in ("timeout", "error")]
+    bad_tool = [o for o in main + tl if o["status"] in ("timeout", "error")]
     if bad_tool:
         for o in bad_tool:
             vlib.log("NOT DECIDED %s: %s\n%s" % (o["name"], o["status"], o.get("tail", "")))
         raise vlib.ToolError("obligation(s) not decided (timeout / tool error): " + ", ".join(o["name"] for o in bad_tool))
-    for o in main:
+    for o in main + tl:
         if o["status"] != "discharged":
             violation(ctx, o)
     if xc_err:
@@ -501,14 +593,19 @@ def run(ctx):
         sens_res[key] = (["%s: %s" % (o["name"], o.get("violated", ""))] if o["status"] == "counterexample" else [])
         if v in reach and sens_res[key]:
             sens_res[key].append(reach[v])
+    for o in tl_sens:
+        if o["status"] in ("timeout", "error"):
+            raise vlib.ToolError("sensitivity proof run %s not decided: %s\n%s" % (o["name"], o["status"], o.get("tail", "")))
+        sens_res["%s/%s" % (o["module"], o["variant"])] = (["%s: %s" % (o["name"], o.get("violated", ""))] if o["status"] == "unproved" else [])
     missed = [k for k, v in sens_res.items() if not v]
     if missed:
         raise vlib.ToolError("seeded design bug(s) %s break no obligation: the inductive invariants are too weak" % missed)
 
     # ---- evidence
-    discharged = sum(1 for o in main if o["status"] == "discharged")
-    ctx.cases = len(main) + len(sens)
-    ctx.nontrivial = len({(o["module"], o["init"], o["inv"], json.dumps(o["consts"], sort_keys=True)) for o in main if o["init"] != "Init"})
+    n_tl = sum(o["total"] for o in tl)
+    discharged = sum(1 for o in main if o["status"] == "discharged") + sum(o["proved"] for o in tl)
+    ctx.cases = len(main) + len(sens) + len(tl) + len(tl_sens)
+    ctx.nontrivial = len({(o["module"], o["init"], o["inv"], json.dumps(o["consts"], sort_keys=True)) for o in main if o["init"] != "Init"}) + len(tl)
     ctx.rule = ("one case = one proof obligation handed to apalache-mc check; non-trivial = inductive steps and IndInv => Safety "
                 "(the Init => IndInv runs are the trivial ones); distinct by (module, init, inv, constants)")
     ctx.validated = 0
@@ -519,19 +616,24 @@ def run(ctx):
         for o in steps[-1:] + [o for o in main if o["target"] == name and o["inv"] == "Safety"][-1:]:
             ctx.samples.append(json.dumps({k: o.get(k) for k in keys}))
     ctx.extra.update({
-        "obligations": len(main),
+        "obligations": len(main) + n_tl,
         "discharged": discharged,
+        "tlaps_modules": [dict({k: o.get(k) for k in ("module", "status", "proved", "total", "attempts", "theorems", "secs")},
+                               scope=dict((m, sc) for m, _d, _t, sc in PROOF_MODULES)[o["module"]]) for o in tl],
         "checker_cmd": "apalache-mc check --config=<constants>.cfg --init=IndInv --inv=IndInv --length=1 --no-deadlock specs/{%s}.tla "
-                       "(and --init=Init --inv=IndInv --length=0, --init=IndInv --inv=Safety --length=0); TLC cross-checks specs/XC_*.tla"
-                       % ",".join(sorted({o["module"] for o in main})),
+                       "(and --init=Init --inv=IndInv --length=0, --init=IndInv --inv=Safety --length=0); tlapm --cleanfp --stretch 3 specs/{%s}.tla; "
+                       "TLC cross-checks specs/XC_*.tla" % (",".join(sorted({o["module"] for o in main})), ",".join(o["module"] for o in tl)),
         "apalache_obligations": [{k: o.get(k) for k in keys} for o in main],
         "cross_check": xc,
         "sensitivity": sens_res,
         "variant": variant,
-        "unbounded_means": "each listed instance size separately; within one size EVERY value of the rigid parameters (neighbourhood relation, core set, "
+        "unbounded_means": "TLAPS modules and the pointwise models EmIdx / LloydIdx (Apalache, unbounded integers): no bound at all; Apalache array models: each listed instance size separately; within one size EVERY value of the rigid parameters (neighbourhood relation, core set, "
                            "tree shape, lower-bound sequences, ...), every nondeterministic choice and any number of steps",
     })
-    ctx.trusted = ["Apalache 0.58.0 + z3 (symbolic transition executor)", "TLC + CommunityModules Json (cross-checks)"]
+    for o in tl[:2]:
+        ctx.samples.append(json.dumps({k: o.get(k) for k in ("name", "module", "status", "proved", "total", "theorems", "secs")}))
+    ctx.trusted = ["Apalache 0.58.0 + z3 (symbolic transition executor)", "tlapm + z3/Zenon/Isabelle backends (NaturalsInduction!NatInduction for one step)",
+                   "TLC + CommunityModules Json (cross-checks)"]
     ctx.assumptions = ["the TLC design models model the code (bound to the implementation by C08/X09, X11, X10, not here)",
                        "the Ind modules equal the original design models: checked by TLC (refinement property + state-set equality) on the small instances only"]
     return vlib.finish(ctx, level="proof")
@@ -540,7 +642,10 @@ def run(ctx):
 def replay(ctx, case):
     """Re-run one obligation of a replay file."""
     inp = case["inp"]
-    if inp.get("tool") == "tlc":
+    if inp.get("tool") == "tlapm":
+        mod = inp["module"]
+        o = run_tlapm(ctx, mod, dict((m, d) for m, d, _t, _s in PROOF_MODULES)[mod], 900, inp.get("variant") or "ok")
+    elif inp.get("tool") == "tlc":
         t = TIER[ctx.tier]
         try:
             for name, tg in TARGETS.items():
